@@ -6,6 +6,9 @@
           the second run must repeat the first, and the step count must not exceed the PROVED bound
           `Term.workBound` of Spec/WorkBound.lean (theorem Parsley.C09.machine_work_bound), computed from
           the case alone: costA * |objects| * |queued forms of spec nodes| + Wc + 5.
+  `dchain n arr|dict|dis` / `bigdchain` : the same kind of chain (arrays, dictionaries, arrays through a
+          disjunctive edge) whose LAST element is ill-typed: the verdict is reject and `unwind` discards all n
+          pending sets at once (arr, dict) -- a recursive unwind overflows the small stack.
   `chain n lin|cyc` : n indirect dictionaries linked by /Next (cyc: the last points back to the first)
           against the recursive named type node = dict{Next : optional node}; the harness runs it in a
           256 KiB-stack thread.  `bigchain` (n = 10^5) is too large for the list-based model memo: the model
@@ -28,16 +31,47 @@ def chainCase (n : Nat) (cyc : Bool) : Case :=
              else if cyc then Obj.dict (.cons nextK (.ref 1 0) .nil) else Obj.dict .nil)
   ⟨"c09", [("node", node)], g, .named "node", .ref 1 0⟩
 
-def parse (line : String) : Option (Case × Option (Nat × Bool)) :=
+/-- deep chains whose LAST element is ill-typed (verdict: reject; every pending set is discarded at once
+    by `unwind` when no in-progress disjunct is above the failure).  n indirect containers
+      arr : i 0 obj [ (i+1) 0 R ]            against  t = [ t* ]                 last: n 0 obj 7
+      dict: i 0 obj << /Next (i+1) 0 R >>    against  node = << /Next node? >>   last: << /Next 7 >>
+      dis : i 0 obj [ (i+1) 0 R ]            against  t = [ (leaf | t)* ], leaf = Name   last: n 0 obj 7 -/
+def dchainCase (n : Nat) (shape : String) : Case :=
+  if shape == "dict" then
+    let node : Chk := .dict Attr.dflt (.cons nextK .optional (.named "node") .nil)
+    let g : Graph := (List.range n).map fun j =>
+      let i := j + 1
+      ((i, 0), Obj.dict (.cons nextK (if i < n then .ref (i + 1) 0 else .int 7) .nil))
+    ⟨"c09", [("node", node)], g, .named "node", .ref 1 0⟩
+  else
+    let elem : Chk := if shape == "dis" then .disj Attr.dflt (mkAlts [.named "leaf", .named "t"]) else .named "t"
+    let t : Chk := .array Attr.dflt elem none
+    let g : Graph := (List.range n).map fun j =>
+      let i := j + 1
+      ((i, 0), if i < n then mkArr [.ref (i + 1) 0] else Obj.int 7)
+    ⟨"c09", [("t", t), ("leaf", .prim Attr.dflt .name)], g, .named "t", .ref 1 0⟩
+
+/-- closed forms of the model's output for the 10^5-link cases (the list-based memo of the model is
+    quadratic); each is confirmed by the `chain` / `dchain` cases for small n, which the model runs, and
+    by the correspondence with the real counter on the big case itself -/
+def closedForm (kind : String) (n : Nat) (k : String) : String :=
+  if kind == "bigchain" then s!"accept steps={2 * n + (if k == "cyc" then 3 else 1)} rerun=same"
+  else if k == "dict" then s!"reject typemismatch steps={2 * n + 2} rerun=same"
+  else if k == "arr" then s!"reject typemismatch steps={2 * n + 1} rerun=same"
+  else s!"reject typemismatch steps={4 * n - 1} rerun=same"
+
+def parse (line : String) : Option (Case × Option String) :=
   match words line with
   | ["chain", n, k] => some (chainCase n.toNat! (k == "cyc"), none)
-  | ["bigchain", n, k] => some (chainCase n.toNat! (k == "cyc"), some (n.toNat!, k == "cyc"))
+  | ["bigchain", n, k] => some (chainCase n.toNat! (k == "cyc"), some (closedForm "bigchain" n.toNat! k))
+  | ["dchain", n, k] => some (dchainCase n.toNat! k, none)
+  | ["bigdchain", n, k] => some (dchainCase n.toNat! k, some (closedForm "bigdchain" n.toNat! k))
   | _ => (parseCase line).map fun c => (c, none)
 
 def model (line : String) : String :=
   match parse line with
   | none => "bad-case"
-  | some (_, some (n, cyc)) => s!"accept steps={2 * n + (if cyc then 3 else 1)} rerun=same"
+  | some (_, some out) => out
   | some (c, none) =>
     let r := checkTypeFuel (C08.cfgOf c.tag) c.g c.ctx 4000000 c.obj c.chk
     s!"{C08.showOutcome r.1} steps={r.2} rerun=same"
@@ -70,6 +104,11 @@ def gen (seed n : Nat) (tier : String) (emit : String → IO Unit) : IO Unit := 
     for m in [1, 2, 3, 10, 100, 400] do
       emit s!"chain {m} {k}"
     emit s!"bigchain 100000 {k}"
+  -- deep chains with an ill-typed last element: reject, and no crash when every pending set is discarded
+  for k in ["arr", "dict", "dis"] do
+    for m in [1, 2, 3, 10, 100, 400] do
+      emit s!"dchain {m} {k}"
+    emit s!"bigdchain 100000 {k}"
   if tier == "thorough" then
     emit "chain 1500 lin"; emit "chain 1500 cyc"
   genSmall "c09" false emit
